@@ -19,9 +19,12 @@ pub mod c04;
 pub mod c05;
 pub mod c07;
 pub mod c10;
+pub mod c13;
+pub mod c14;
+pub mod c15;
 
 pub fn all() -> Vec<&'static PropDef> {
-    vec![&c01::DEF, &c02::DEF, &c03::DEF, &c04::DEF, &c05::DEF, &c07::DEF, &c10::DEF]
+    vec![&c01::DEF, &c02::DEF, &c03::DEF, &c04::DEF, &c05::DEF, &c07::DEF, &c10::DEF, &c13::DEF, &c14::DEF, &c15::DEF]
 }
 
 pub fn lookup(id: &str) -> Option<&'static PropDef> {
